@@ -184,7 +184,7 @@ func (r stackType) String() string {
 	return t
 }
 
-func (r nodeConfig) stackType() stackType {
+func (r *nodeConfig) stackType() stackType {
 	return r.typ
 }
 
@@ -193,11 +193,11 @@ func (r stack) stackType() stackType {
 	return sc.stackType()
 }
 
-func (r nodeConfig) isError() bool {
+func (r *nodeConfig) isError() bool {
 	return r.err != nil
 }
 
-func (r nodeConfig) getErr() error {
+func (r *nodeConfig) getErr() error {
 	return r.err
 }
 
@@ -281,7 +281,7 @@ func (r *nodeConfig) valid() (is bool) {
 positive returns a Boolean value indicative of whether the specified
 cfgFlag input value is "on" within the receiver's opt field.
 */
-func (r nodeConfig) positive(x cfgFlag) (is bool) {
+func (r *nodeConfig) positive(x cfgFlag) (is bool) {
 	if r.valid() {
 		is = r.opt.positive(x)
 	}
@@ -355,7 +355,7 @@ func (r *nodeConfig) setListDelimiter(x string) {
 /*
 getListDelimiter is a private method invoked by stack.getListDelimiter.
 */
-func (r nodeConfig) getListDelimiter() string {
+func (r *nodeConfig) getListDelimiter() string {
 	return r.ljc
 }
 
